@@ -84,7 +84,7 @@ def reject_cases(ctx, n, k):
 
 
 def run_batches(ctx):
-    N = 60 if ctx.tier == "quick" else 150
+    N = 60 if ctx.tier == "quick" else 220
     pairs = [(n, k) for n in range(1, N + 1) for k in range(1, n + 1)]
     for idx, (n, k) in enumerate(pairs):
         if idx % ctx.nshards != ctx.shard:
@@ -186,7 +186,7 @@ def as_list(v):
 
 def run_opm(ctx):
     rng = ctx.rng(3)
-    nrep = 60 if ctx.tier == "quick" else 500
+    nrep = 60 if ctx.tier == "quick" else 3000
     for it in range(nrep):
         opts = gen_options(rng, ctx)
         context = {}
